@@ -108,8 +108,8 @@ theorem buildStep_blocks {g g' : Notes} {r : NRec} (h : buildStep g r = ok g') :
       simp only [hl, Outcome.ok.injEq] at h
       rw [← h]
       have := Notes.totalBlocks_replaceLast (g := g)
-        (f' := { f with blocks := f.blocks ++ List.replicate n ({} : Block) }) hl
-      simp only [List.length_append, List.length_replicate] at this
+        (f' := { f with blocks := f.blocks ++ (List.range n).map fun i => ({ no := i } : Block) }) hl
+      simp only [List.length_append, List.length_map, List.length_range] at this
       simp only [NRec.announced_blocks]
       omega
   | arcs src as =>
